@@ -26,6 +26,9 @@ type Spec struct {
 	// GlobalExts registers the harness extensions at package level (one set
 	// of function objects shared by all Exprs) instead of on every Expr.
 	GlobalExts bool `json:"global_exts,omitempty"`
+	// MaxEvents overrides the default bound on scheduling events (long
+	// "soak" histories).
+	MaxEvents int `json:"max_events,omitempty"`
 }
 
 // StratSpec names the scheduling strategy of a generated run.
@@ -48,6 +51,10 @@ type DocSpec struct {
 	// at run time, the very same Go object as that member of document Parent.
 	Member string `json:"member,omitempty"`
 	Parent string `json:"parent,omitempty"`
+	// Subslice, if set to [name, source, n], adds member `name` holding the
+	// first n elements of the array member `source` AS A SUB-SLICE: same
+	// backing array, spare capacity reaching into the rest of `source`.
+	Subslice []string `json:"subslice,omitempty"`
 }
 
 // ExprSpec is an expression compiled by the controller before the tasks
